@@ -43,6 +43,7 @@ VAL = {
     'TextIOWrapper': __import__('io').TextIOWrapper, 'BufferedIOBase': __import__('io').BufferedIOBase,
     'ValueOrList': _types.ValueOrList,
     'StringIO': __import__('io').StringIO,
+    'function': __import__('types').FunctionType,
 }
 EXC = {
     'BaseException': BaseException,
